@@ -58,7 +58,7 @@ func (d *driver) validate(all []*result, progs map[string]*interp.Program, want 
 	byHarness := map[string][]*result{}
 	var names []string
 	for _, r := range all {
-		if r.inst.h.Expect == "violation" || len(r.res.Violations) > 0 || r.res.Completed == 0 {
+		if r.inst.h.Expect == "violation" || r.inst.h.NoValidate || len(r.res.Violations) > 0 || r.res.Completed == 0 {
 			continue
 		}
 		if _, ok := byHarness[r.res.Harness]; !ok {
